@@ -6,14 +6,14 @@ from bvt.props._scen import common_classes, judge
 ID = 'C05'
 LEVEL = 'exploration'
 RULE = (
-    'Serial buses only (on a parallel_handlers bus sibling handlers are concurrent by design). A dedicated actor '
+    'Mostly serial buses; on a parallel_handlers bus (12%) the sibling handlers of the awaiting handler\'s own event and their descendants are concurrent by design and exempt. A dedicated actor '
     'pre-loads every bus queue with 0-4 unrelated events, further actors keep dispatching; handlers dispatch children '
     'to any bus and await them now or later. Oracle: between await-begin and the first trace record at which the child '
     'is complete, every handler entry is for the child or a harness-known descendant (clause a: the intruder was '
     'enqueued before the child, clause b: after). Non-trivial = at await-begin at least one unrelated event was queued '
     'on some bus; distinct by canonical JSON.'
 )
-ASSUMPTIONS = ['virtual time; completion instant observed by the harness at every trace record', 'serial buses only', 'asynchronous clean-up of a cancelled handler is handler activity of its event: clean-up records of an unrelated event inside an await window count as a violation']
+ASSUMPTIONS = ['virtual time; completion instant observed by the harness at every trace record', 'on parallel buses only events unrelated to the awaiting handler\'s own event are judged', 'asynchronous clean-up of a cancelled handler is handler activity of its event: clean-up records of an unrelated event inside an await window count as a violation']
 
 from hypothesis import strategies as _st
 
@@ -26,7 +26,7 @@ def _timeouts(draw):
     return {str(t): draw(_st.sampled_from([0.13, 0.27, 0.41])) for t in range(4) if draw(_st.booleans())}
 
 
-P = Profile(timeouts=_timeouts(), cleanup=0.3, par=0.0, preload=4, watch=True, actor_ops=['disp', 'burst', 'dispany', 'sleep', 'await', 'yield'], maxdepth=[2, 3], wild=0.1, fwd=0.25, modes=['await', 'await', 'await', 'later', 'ff'], raises=0.05, warm=[True, False, False])
+P = Profile(timeouts=_timeouts(), cleanup=0.3, par=0.12, preload=4, watch=True, actor_ops=['disp', 'burst', 'dispany', 'sleep', 'await', 'yield'], maxdepth=[2, 3], wild=0.1, fwd=0.25, modes=['await', 'await', 'await', 'later', 'ff'], raises=0.1, warm=[True, False, False])
 
 
 def budget(tier):
